@@ -58,7 +58,7 @@ def _case(s, rng):
 
 
 def gen_field(rng):
-    return {"n": rng.choice([32, 64, 100, 257, 512, 1000, 2048, 4096]),
+    return {"n": rng.choice([32, 64, 100, 257, 512, 1000, 2048, 4096]) if rng.random() < 0.5 else rng.randint(20, 3000),
             "field": rng.choice(["cw", "cw", "tone", "random", "nrz"]),
             "npol": rng.choice([1, 2]), "innoise": rng.choice([None, "complex", "complex", "real"]),
             "P": 10 ** rng.uniform(-5, -1), "inseed": rng.getrandbits(32),
